@@ -14,8 +14,9 @@ import (
 
 // MG is the reference model of a simple graph: adjacency rows as bitsets (n <= 64).
 type MG struct {
-	n int
-	a []uint64
+	n   int
+	a   []uint64
+	big *EG // only for n > 64 (definitional models of large named graphs): the edge list; a is unused then
 }
 
 func newMG(n int) *MG { return &MG{n: n, a: make([]uint64, n)} }
